@@ -5,6 +5,7 @@ import (
 	"context"
 	"errors"
 	"fmt"
+	"sort"
 	"sync"
 	"testing"
 	"time"
@@ -44,10 +45,14 @@ func TestC09MTU(t *testing.T) {
 	const sub = "C09.mtu_honest"
 	ev.Rule(sub, "rapid: stack spec with small inner MTUs (64..4096, so that fragmentation happens) and a recording decorator under every layer, every multiplexer kind with channel ids of differing header size, payload lengths L in {0, 1, MTU-1, MTU, MTU+1, MTU+k, part and part-count boundaries +-1}, via Tell and (where the stack offers it) Ask. Oracle: L <= MTU(): error is not ErrMTUExceeded, no recorder beneath saw a size rejection, whatever is delivered is byte-identical to the payload (loss is allowed); L > MTU(): IsErrMTUExceeded(err) and (sentinel) nothing of the refused payload is ever delivered. non-trivial = L in {MTU-1, MTU, MTU+1} on a stack with a layer that adds a header or fragments; distinct by (spec, L-MTU, verb)")
 	rapid.Check(t, func(t *rapid.T) {
-		spec := genSpec(t, specOpts{maxDepth: 3, bases: []string{"mem", "mem", "mem", "udp"}, smallMTUs: true, withRec: true, honestFrag: false})
-		if rapid.IntRange(0, 7).Draw(t, "streamStack") == 0 {
+		spec := genSpec(t, specOpts{maxDepth: 3, bases: []string{"mem", "mem", "mem", "udp"}, smallMTUs: true, withRec: true, honestFrag: false, twoSchemes: true, transform: true})
+		switch rapid.IntRange(0, 7).Draw(t, "streamStack") {
+		case 1:
+			// two transports with different MTUs under one multi-transport swarm: MTU() must be the limit for both
+			spec = stack.Spec{Base: "mem", BaseMTU: rapid.SampledFrom([]int{64, 256, 1500, 4096}).Draw(t, "multiBaseMTU"), QueueLen: 256, Layers: []stack.Layer{{Kind: "rec"}, {Kind: "multi", Name: "big", N: 2}, {Kind: "rec"}}}
+		case 0:
 			// a stream transport on top: the one place where a payload of exactly MTU() bytes shares a frame with a length prefix
-			spec = stack.Spec{Base: rapid.SampledFrom([]string{"mem", "udp"}).Draw(t, "streamBase"), BaseMTU: 1500, QueueLen: 64, Layers: []stack.Layer{{Kind: "rec"}, {Kind: "quic", MTU: rapid.SampledFrom([]int{0, 1000, 3000, 100000}).Draw(t, "quicMTU")}}}
+			spec = stack.Spec{Base: rapid.SampledFrom([]string{"mem", "udp"}).Draw(t, "streamBase"), BaseMTU: 1500, QueueLen: 64, Layers: []stack.Layer{{Kind: "rec"}, {Kind: "quic", MTU: rapid.SampledFrom([]int{0, 1000, 3000, 100000, 2 << 20}).Draw(t, "quicMTU")}}}
 		}
 		w, err := stack.Build(spec, 2, 0)
 		if err != nil {
@@ -57,6 +62,10 @@ func TestC09MTU(t *testing.T) {
 		a, b := w.Nodes[0], w.Nodes[1]
 		mtu := a.S.MTU()
 		part := partSizeOf(spec)
+		// the destination address is drawn (a multi-transport layer offers one per scheme, in map order)
+		dsts := b.S.LocalAddrs()
+		sort.Slice(dsts, func(i, j int) bool { return addrText(dsts[i]) < addrText(dsts[j]) })
+		bLocal := dsts[rapid.IntRange(0, len(dsts)-1).Draw(t, "dstAddr")]
 		choice := rapid.SampledFrom([]string{"0", "1", "mtu-1", "mtu", "mtu", "mtu+1", "mtu+1", "mtu+k", "part", "part+1", "255part", "255part+1", "256part+1"}).Draw(t, "L")
 		var L int
 		switch choice {
@@ -153,9 +162,9 @@ func TestC09MTU(t *testing.T) {
 		var sendErr error
 		if useAsk {
 			resp := make([]byte, 16)
-			_, sendErr = a.A.Ask(sctx, resp, b.Local(), p2p.IOVec{e.Data})
+			_, sendErr = a.A.Ask(sctx, resp, bLocal, p2p.IOVec{e.Data})
 		} else {
-			sendErr = a.S.Tell(sctx, b.Local(), p2p.IOVec{e.Data})
+			sendErr = a.S.Tell(sctx, bLocal, p2p.IOVec{e.Data})
 		}
 		scf()
 		have := func(p []byte) bool {
@@ -217,7 +226,7 @@ func TestC09MTU(t *testing.T) {
 			// sentinel: a valid small message after it; nothing of the refused payload may have arrived by then
 			s := led.Make(0, 1, min(mtu, 24))
 			tctx, tcf := context.WithTimeout(context.Background(), 5*time.Second)
-			a.S.Tell(tctx, b.Local(), p2p.IOVec{s.Data})
+			a.S.Tell(tctx, bLocal, p2p.IOVec{s.Data})
 			tcf()
 			waitFor(time.Second, func() bool { return have(s.Data) })
 			mu.Lock()
